@@ -70,3 +70,34 @@ Theorem C03_waker_action_safe :
   winv own cur w -> cw_ok own cw -> winv own cur (do_act cw a w).
 Proof. exact winv_do_act. Qed.
 Print Assumptions C03_waker_action_safe.
+
+(** (d) the pointer arithmetic of the block: for all header / item sizes, power-of-two alignments,
+    capacities and item indices (the stub included).  [Calib.layout_ok] (generated, checked on
+    every run) shows that these formulas give the implementation's slice offset and the
+    implementation's (size, align) for every probed capacity. *)
+From FB Require Import Layout.
+Local Open Scope Z_scope.
+
+Theorem C03_mask_formula_rounds_up :
+  forall len k : Z, 0 <= k -> round_up_mask len (2 ^ k) = round_up len (2 ^ k).
+Proof. exact mask_is_round_up. Qed.
+Print Assumptions C03_mask_formula_rounds_up.
+
+Theorem C03_items_inside_the_allocation_and_aligned :
+  forall hs isz ka ki : Z, 0 <= ka -> 0 <= ki -> 0 < isz -> isz mod 2 ^ ki = 0 ->
+  forall cap i : Z, 0 <= i <= cap ->
+  hs <= item_off hs isz ki i /\ item_off hs isz ki i + isz <= block_size hs isz ka ki cap
+  /\ (item_off hs isz ki i) mod 2 ^ ki = 0.
+Proof. exact item_inside. Qed.
+Print Assumptions C03_items_inside_the_allocation_and_aligned.
+
+Theorem C03_items_disjoint :
+  forall hs isz ka ki : Z, 0 <= ka -> 0 <= ki -> 0 < isz -> forall i j : Z, 0 <= i < j ->
+  item_off hs isz ki i + isz <= item_off hs isz ki j.
+Proof. exact items_disjoint. Qed.
+Print Assumptions C03_items_disjoint.
+
+Theorem C03_header_found_from_any_item :
+  forall hs isz ki base i : Z, meta_raw hs isz ki (base + item_off hs isz ki i) i = base.
+Proof. intros hs isz ki base i. exact (meta_raw_correct hs isz 0 ki base i). Qed.
+Print Assumptions C03_header_found_from_any_item.
